@@ -5,6 +5,7 @@ import (
 	"fmt"
 	"io"
 	"net/http"
+	"strings"
 
 	"verifharness/mc"
 	"verifharness/oracle"
@@ -16,7 +17,7 @@ func init() { register(&Check{ID: "C06", Run: runC06, ShardDepth: 3}) }
 
 var (
 	c06RespCC = []string{"", "max-age=60", "no-store", "no-store, max-age=60", "public", "must-understand, max-age=60", "private", "private, max-age=60"}
-	c06Reqs   = []string{"GET", "GET+no-store", "GET+Range", "GET+If-None-Match", "GET+If-Modified-Since", "HEAD", "POST"}
+	c06Reqs   = []string{"GET", "GET+no-store", "GET+Range", "GET+Range(items)", "GET+Range(Bytes)", "GET+If-None-Match", "GET+If-Modified-Since", "HEAD", "POST", "GET(empty Method)+Range"}
 )
 
 func c06Statuses(tier string) []int {
@@ -88,6 +89,13 @@ func runC06(x *mc.X) {
 		req.Header.Set("Cache-Control", "no-store")
 	case "GET+Range":
 		req.Header.Set("Range", "bytes=0-3")
+	case "GET+Range(items)":
+		req.Header.Set("Range", "items=0-3")
+	case "GET+Range(Bytes)":
+		req.Header.Set("Range", "Bytes=0-3")
+	case "GET(empty Method)+Range":
+		req.Method = ""
+		req.Header.Set("Range", "bytes=0-3")
 	case "GET+If-None-Match":
 		req.Header.Set("If-None-Match", `"client"`)
 	case "GET+If-Modified-Since":
@@ -121,7 +129,7 @@ func runC06(x *mc.X) {
 		why = "" // a 304 answering the cache's own validation request freshens the stored response (C08), it is not stored itself
 	case ccs.Has("no-store") || reqKind == "GET+no-store":
 		why = "no-store"
-	case reqKind == "GET+Range" || reqKind == "HEAD" || reqKind == "POST":
+	case strings.Contains(reqKind, "Range") || reqKind == "HEAD" || reqKind == "POST":
 		why = "not a plain GET"
 	case status < 200 || status == 206 || status == 304:
 		why = fmt.Sprintf("status %d", status)
